@@ -3,7 +3,7 @@
 (* desper.model.world — WorldHandle / WorldFromFileHandle / populate.      *)
 (* Property C15: a loaded world contains exactly what its description says.*)
 (*                                                                         *)
-(* `Init` chooses a world description from the enumerated family `Descs`.  *)
+(* `Init` chooses a world description from the family `PickDesc` admits.    *)
 (* Operational layer (shaped like desper/model/world.py): the pipeline of  *)
 (* WorldHandle.load as stages                                              *)
 (*   new (disabled world) -> defaults (file handles only) -> transformed   *)
@@ -29,7 +29,8 @@
 (***************************************************************************)
 EXTENDS Naturals, Sequences, FiniteSets, TLC
 
-CONSTANTS Descs,              \* the family of descriptions Init picks from
+CONSTANTS PickDesc(_),        \* PickDesc(d): d is a description of the enumerated family (a predicate, so that
+                              \* TLC enumerates the family by nested quantifiers instead of sorting one huge set)
           SmallStep,          \* BOOLEAN, see above
           Lean,               \* BOOLEAN: forget the description once loaded (the instance dumped for replay:
                               \* states stay small; the declarative properties are checked in the other instances,
@@ -280,7 +281,7 @@ St0 == [dicts |-> NoDicts, w |-> NewWorld(TRUE), err |-> "none"]
 Collapse(md) == IF IsFile(md) THEN "file" ELSE md
 Modes == {"file1", "file2", "dict", "bare"}
 
-Init == /\ desc \in Descs
+Init == /\ PickDesc(desc)
         /\ pc = "desc" /\ mode = "-" /\ dicts = NoDicts /\ w = NewWorld(TRUE) /\ err = "none"
 
 Land(st, p, md) ==   \* common tail: publish a stage result
